@@ -88,9 +88,23 @@ def run(tier, seed):
             extra.append("gojq=" + gojq)
         else:
             c.notes.append("could not build cmd/gojq for the child-process cases: " + V.tail(glog, 5))
-    n = 30000 if tier == "quick" else 400000
+    n = 24000 if tier == "quick" else 400000
     n = int(os.environ.get("C08_N", n))
-    rc, out, cases, st = V.run_harness("c08", "crash", seed, n, tier, extra=extra, timeout=3300, name="c08crash")
+    # the crash stream (all cores, but mostly waiting on deadlines/watchdogs at its tail) runs while the three
+    # correspondence streams are produced and judged
+    import threading
+    box = {}
+
+    def crash_job():
+        box["r"] = V.run_harness("c08", "crash", seed, n, tier, extra=extra, timeout=3300, name="c08crash")
+    th = threading.Thread(target=crash_job)
+    th.start()
+    q = tier == "quick"
+    st_all["lr"] = model_stream(c, exe_m, "lr", 6000 if q else 100000, tier, seed)
+    st_all["flags"] = model_stream(c, exe_m, "flags", 5000 if q else 60000, tier, seed)
+    st_all["preview"] = model_stream(c, exe_m, "preview", 4000 if q else 60000, tier, seed)
+    th.join()
+    rc, out, cases, st = box.get("r") or (1, "crash stream did not run", None, {})
     st_all["crash"] = {k: v for k, v in st.items() if k not in ("failures",)}
     if rc != 0:
         c.broken_correspondence("crash:harness-run", None, V.tail(out, 40))
@@ -117,18 +131,16 @@ def run(tier, seed):
             agg[k.split(":", 1)[1]] = agg.get(k.split(":", 1)[1], 0) + v
         c.notes.append("crash search outcome classes: %s" % json.dumps(agg, sort_keys=True))
         c.samples += [dict(stream="crash", case=s) for s in (st.get("skipped_unbounded") or [])[:4]]
-    # ---- B, C, D: correspondence ---------------------------------------------------------------------------
-    q = tier == "quick"
-    st_all["lr"] = model_stream(c, exe_m, "lr", 6000 if q else 100000, tier, seed)
-    st_all["flags"] = model_stream(c, exe_m, "flags", 5000 if q else 60000, tier, seed)
-    st_all["preview"] = model_stream(c, exe_m, "preview", 4000 if q else 60000, tier, seed)
     if not proved:
         c.notes.append("a proof obligation broke; failing inputs were searched by the crash stream (all cases run on the "
                        "implementation under recover()/child processes) and by the lr/flags/preview streams (model verdict "
                        "'panic' or an implementation panic in the hook)")
     rule = ("crash search: every corpus query (cli/test.yaml) on its own and on pool inputs; every builtin (from `builtins`) "
             "systematically with boundary/wrong-typed arguments; byte-level mutations of corpus queries (bit flips, insert/"
-            "delete/duplicate/truncate/splice/wrap); grammar-generated queries; inputs and variables over all Go "
+            "delete/duplicate/truncate/splice/wrap); grammar-generated queries; structured arguments (time arrays of length "
+            "0..12 over every numeric representation, odd path arrays and slice objects, entries with missing/extra keys, "
+            "dangling-%% formats, every regex flag letter, huge/negative/NaN counts, out-of-range code points, deep and "
+            "nested containers) for the builtins that look inside their argument, each family at each size; inputs and variables over all Go "
             "representations (nil, bool, int, float64 incl. NaN/Inf/-0, *big.Int, json.Number, invalid UTF-8 strings, nil and "
             "deep []any / map[string]any); command lines + stdin + GOJQ_COLORS in-process through a hook and (thorough) "
             "the built binary in a child process under ulimit -v; each case in a child-process pool under recover(), "
